@@ -3,6 +3,9 @@ package main
 import (
 	"fmt"
 	"go/types"
+	"math"
+	"regexp"
+	"time"
 	"strings"
 
 	"golang.org/x/tools/go/ssa"
@@ -54,6 +57,26 @@ func init() {
 			e.envState["clockauto"] = a[0]
 			return nil
 		},
+		zzPath + ".ClockRead": func(e *Exec, fn *ssa.Function, a []Value) Value {
+			cur, _ := e.envState["clock"].(*Term)
+			if cur == nil {
+				cur = e.ts.Const(64, 1700000000_000000000)
+				e.envState["clock"] = cur
+			}
+			return cur
+		},
+		zzPath + ".ClockStep": func(e *Exec, fn *ssa.Function, a []Value) Value {
+			cur, _ := e.envState["clock"].(*Term)
+			if cur == nil {
+				cur = e.ts.Const(64, 1700000000_000000000)
+			}
+			n := e.uniqueName("now")
+			t := e.ts.Var(n, 64)
+			e.nondets = append(e.nondets, nondetRec{Name: n, T: t})
+			e.assume(e.ts.And(e.ts.Cmp(OpSlt, cur, t), e.ts.Cmp(OpSlt, t, e.ts.Const(64, 1<<62))))
+			e.envState["clock"] = t
+			return nil
+		},
 		zzPath + ".IsConcrete": func(e *Exec, fn *ssa.Function, a []Value) Value {
 			t, ok := a[0].(*Term)
 			return e.ts.Bool(ok && t.IsConst())
@@ -77,6 +100,13 @@ func init() {
 			e.envState["retention"] = t
 			e.assume(e.ts.Cmp(OpSle, e.ts.Const(64, 0), t))
 			return t
+		},
+
+		zzPath + ".Debug": func(e *Exec, fn *ssa.Function, a []Value) Value {
+			if e.cfg.Trace {
+				fmt.Printf("DEBUG %s: %s\n", e.describe(a[0]), e.deepDescribe(a[1], 0))
+			}
+			return nil
 		},
 
 		// ----- bytes / strings -----
@@ -159,6 +189,10 @@ func init() {
 			return res
 		},
 
+		"math.Round": mathFn(math.Round), "math.Floor": mathFn(math.Floor), "math.Ceil": mathFn(math.Ceil),
+		"math.Abs": mathFn(math.Abs), "math.Trunc": mathFn(math.Trunc), "math.Sqrt": mathFn(math.Sqrt),
+		"math.Log": mathFn(math.Log), "math.Log2": mathFn(math.Log2), "math.Exp": mathFn(math.Exp),
+
 		// ----- errors / fmt -----
 		"errors.Is":   inErrorsIs,
 		"fmt.Errorf":  inErrorf,
@@ -191,6 +225,17 @@ func init() {
 		"(time.Time).Local":        func(e *Exec, fn *ssa.Function, a []Value) Value { return a[0] },
 		"(time.Time).Round":        func(e *Exec, fn *ssa.Function, a []Value) Value { return a[0] },
 		"(time.Time).Truncate":     func(e *Exec, fn *ssa.Function, a []Value) Value { return a[0] },
+		"(time.Time).Format": inTimeFormat,
+		"time.Parse":         inTimeParse,
+		"(*regexp.Regexp).ReplaceAllString": func(e *Exec, fn *ssa.Function, a []Value) Value {
+			// the only regular expression in the repository is the instance-id sanitiser [^a-zA-Z0-9-]
+			src, ok := a[1].(*StrV)
+			repl, ok2 := a[2].(*StrV)
+			if !ok || !ok2 || !src.Concrete() || !repl.Concrete() {
+				e.unsupported("regexp on symbolic string")
+			}
+			return &StrV{S: regexp.MustCompile("[^a-zA-Z0-9-]").ReplaceAllString(src.S, repl.S)}
+		},
 		"(time.Time).String":       func(e *Exec, fn *ssa.Function, a []Value) Value { return &StrV{S: "<time>"} },
 		"(time.Duration).Round":    func(e *Exec, fn *ssa.Function, a []Value) Value { return a[0] },
 		"(time.Duration).Truncate": func(e *Exec, fn *ssa.Function, a []Value) Value { return a[0] },
@@ -205,6 +250,16 @@ func init() {
 		"(time.Duration).Milliseconds": func(e *Exec, fn *ssa.Function, a []Value) Value {
 			return e.ts.Bin(OpSDiv, a[0].(*Term), e.ts.Const(64, 1000000))
 		},
+	}
+}
+
+func mathFn(f func(float64) float64) func(e *Exec, fn *ssa.Function, a []Value) Value {
+	return func(e *Exec, fn *ssa.Function, a []Value) Value {
+		x := a[0].(FloatV)
+		if x.Opaque {
+			return x
+		}
+		return FloatV{F: f(x.F)}
 	}
 }
 
@@ -592,4 +647,127 @@ func inTimeUnix(e *Exec, fn *ssa.Function, a []Value) Value {
 	ts := e.ts
 	sec, nsec := a[0].(*Term), a[1].(*Term)
 	return mkTime(e, ts.Bin(OpAdd, ts.Bin(OpMul, sec, ts.Const(64, 1000000000)), nsec))
+}
+
+func (e *Exec) deepDescribe(v Value, depth int) string {
+	if depth > 6 {
+		return "..."
+	}
+	switch x := v.(type) {
+	case nil:
+		return "nil"
+	case *Term:
+		return x.String()
+	case *StrV:
+		if x.Concrete() {
+			return fmt.Sprintf("%q", x.S)
+		}
+		return "<symbolic string>"
+	case IfaceV:
+		if x.T == nil {
+			return "nil-iface"
+		}
+		return x.T.String() + "{" + e.deepDescribe(x.V, depth+1) + "}"
+	case *Cell:
+		if x == nil {
+			return "nil-ptr"
+		}
+		return "&" + e.deepDescribe(e.load(x), depth+1)
+	case *StructV:
+		var parts []string
+		for _, f := range x.F {
+			parts = append(parts, e.deepDescribe(f, depth+1))
+		}
+		return "{" + strings.Join(parts, ", ") + "}"
+	case SliceV:
+		if x.Arr == nil {
+			return "nil-slice"
+		}
+		var parts []string
+		for i := 0; i < x.Len && i < 40; i++ {
+			if c := x.Arr.peek(x.Off + i); c != nil {
+				parts = append(parts, e.deepDescribe(e.load(c), depth+1))
+			} else {
+				parts = append(parts, "0")
+			}
+		}
+		return "[" + strings.Join(parts, " ") + "]"
+	case NilPtr:
+		return "nil"
+	}
+	return fmt.Sprintf("%T", v)
+}
+
+// Format: concrete instants are formatted by the real time package; a symbolic instant
+// with the snapshot-name layout becomes a fixed-width, order-preserving, invertible
+// digit string (16 hex nibbles of the nanosecond count in the digit positions) - the
+// three properties of time.Format that the repository relies on (stated in C15).
+const nameLayout = "20060102-150405.000000000"
+
+func inTimeFormat(e *Exec, fn *ssa.Function, a []Value) Value {
+	ext := timeExt(e, a[0])
+	layout := e.concStr(a[1], "time layout")
+	if ext.IsConst() {
+		return &StrV{S: time.Unix(0, ext.SInt()).UTC().Format(layout)}
+	}
+	if layout != nameLayout {
+		return &StrV{S: "<time>"}
+	}
+	ts := e.ts
+	out := make([]*Term, 0, len(layout))
+	nib := 15
+	for i := 0; i < len(layout); i++ {
+		c := layout[i]
+		if c == '-' || c == '.' {
+			out = append(out, ts.Const(8, uint64(c)))
+			continue
+		}
+		if nib < 0 {
+			out = append(out, ts.Const(8, '0'))
+			continue
+		}
+		n := ts.ZExt(ts.Extract(nib*4+3, nib*4, ext), 8)
+		ch := ts.Ite(ts.Cmp(OpUlt, n, ts.Const(8, 10)), ts.Bin(OpAdd, n, ts.Const(8, '0')), ts.Bin(OpAdd, n, ts.Const(8, 'a'-10)))
+		out = append(out, ch)
+		nib--
+	}
+	return e.mkStr(out)
+}
+
+func inTimeParse(e *Exec, fn *ssa.Function, a []Value) Value {
+	layout := e.concStr(a[0], "time layout")
+	s := a[1].(*StrV)
+	if s.Concrete() {
+		t, err := time.Parse(layout, s.S)
+		if err != nil {
+			return TupleV{mkTime(e, e.ts.Const(64, 0)), e.newStubError("time parse error", nil)}
+		}
+		return TupleV{mkTime(e, e.ts.Const(64, uint64(t.UnixNano()))), IfaceV{}}
+	}
+	if layout != nameLayout || s.Len() != len(layout) {
+		e.unsupported("time.Parse of symbolic string with layout %q", layout)
+	}
+	ts := e.ts
+	bs := e.strBytes(s)
+	var ext *Term = ts.Const(64, 0)
+	nib := 15
+	valid := ts.True
+	for i := 0; i < len(layout) && nib >= 0; i++ {
+		c := layout[i]
+		if c == '-' || c == '.' {
+			valid = ts.And(valid, ts.Eq(bs[i], ts.Const(8, uint64(c))))
+			continue
+		}
+		b := bs[i]
+		isDig := ts.And(ts.Cmp(OpUle, ts.Const(8, '0'), b), ts.Cmp(OpUle, b, ts.Const(8, '9')))
+		isHex := ts.And(ts.Cmp(OpUle, ts.Const(8, 'a'), b), ts.Cmp(OpUle, b, ts.Const(8, 'f')))
+		valid = ts.And(valid, ts.Or(isDig, isHex))
+		v := ts.Ite(isDig, ts.Bin(OpSub, b, ts.Const(8, '0')), ts.Bin(OpSub, b, ts.Const(8, 'a'-10)))
+		ext = ts.Bin(OpBOr, ext, ts.Bin(OpShl, ts.ZExt(v, 64), ts.Const(64, uint64(nib*4))))
+		nib--
+	}
+	if e.branch(valid) {
+		return TupleV{mkTime(e, ext), IfaceV{}}
+	}
+	return TupleV{mkTime(e, e.ts.Const(64, 0)), e.newStubError("time parse error", nil)}
 }
